@@ -23,7 +23,10 @@ case "$1:$2" in
   check:*|replay:*|build:*) WANT_RACE=1 ;;
 esac
 trap cleanup EXIT INT TERM
-cp /repo/go.sum go.sum 2>/dev/null
+# (VERIF_REPO lets the sensitivity scripts point a check at a scratch copy of the library with a
+# deliberate change applied; the registered commands never set it)
+REPO="${VERIF_REPO:-/repo}"
+cp "$REPO/go.sum" go.sum 2>/dev/null
 fail() { echo "BUILD FAILED (exit 2, not a violation):"; cat "$LOG"; exit 2; }
 if [ "${VERIF_AUTOYIELD:-1}" = "1" ]; then
   # build from a scratch copy of /repo's working tree in which yield points were inserted
@@ -33,7 +36,7 @@ if [ "${VERIF_AUTOYIELD:-1}" = "1" ]; then
   (
     flock 9
     mkdir -p "$SCRATCH"
-    rsync -a --delete --exclude .git /repo/ "$SCRATCH/" || exit 1
+    rsync -a --delete --exclude .git "$REPO/" "$SCRATCH/" || exit 1
     "$VERIF_DIR/bin/autoyield.$$" "$SCRATCH" || exit 1
     sed "s#=> /repo#=> $SCRATCH#" go.mod > "$MODF"; cp go.sum "${MODF%.mod}.sum"
     go build -modfile="$MODF" -tags verif -o "$BIN" ./cmd/vsim || exit 1
